@@ -871,6 +871,11 @@ class C15(Check):
             "delivered by the simulator through the node's encapsulator (timer set for now, packet from the courier, next "
             "mobility update), the first create_dispatcher of 60% of the nodes coming only after callbacks were delivered; "
             "initialize / telemetry of every node / finish as the simulator issues them are part of the judged history; "
+            "in 40% of the histories the handlers are other kinds of callable than a closure somebody keeps: bound methods "
+            "and callable value objects written down anew at every request (equal, never identical, to what was "
+            "registered), kept functools.partial objects; in 15% the protocol instances bound implementations of their "
+            "own to 1-5 of their callbacks when they were constructed (self.handle_packet = self._as_role_packet), before "
+            "any dispatcher was asked for: the chain must end in THAT method; "
             "thorough: every history of <= 5 ops over a 10-op "
             "alphabet x 2 behaviours, <= 4 ops over two instances; non-trivial = a dispatch over a chain of >= 3 stopped by "
             "an INTERRUPT strictly inside, with a successful re-entrant (un)registration in the same dispatch")
@@ -1783,7 +1788,12 @@ class C17(Check):
             "protocol instance and provider, like the nodes of a swarm) built from one configuration — the same "
             "RandomMobilityConfig object, equal objects or the constructor's default argument —, built before and after "
             "it and driven by short histories of their own in between its ops; the direct predicate judges every plugin on "
-            "its own; thorough: every history of <= 6 "
+            "its own; 15% of the histories: foreign telemetry handlers that never touch the plugin but return a scripted "
+            "CONTINUE / INTERRUPT / None per invocation are registered on the same protocol at any moment, and a trip "
+            "sitting behind an interrupting one is often started again (a trip that is started is the newest handler: "
+            "telemetry cut off by a handler registered after the last start is not reported to the plugin, everything "
+            "else is); 12%: the provider refuses (raises for) the goto of an initiate on an idle plugin or of a travel "
+            "and the caller catches it: nothing was started, the plugin stays idle and quiet; thorough: every history of <= 6 "
             "ops over a 7-op alphabet; non-trivial = >= 2 initiates before a finish and >= 1 arrival")
     assumptions = ["lo <= hi for the in-box theorem (random.uniform also accepts a reversed range; the check then uses the "
                    "sorted bounds)", "0 <= u < 1 for every draw", "IEEE rounding of lo + (hi - lo) * u is not formalised (the "
@@ -1798,7 +1808,12 @@ class C17(Check):
                   "skipped if that list is not there. Plugin calls made re-entrantly from foreign telemetry handlers are "
                   "outside the model: ~12% of the generated histories exercise them against the direct predicate only. "
                   "The model describes one plugin: the further plugins built from the same configuration (40% of the "
-                  "histories) are judged by the direct predicate only, the plugin of the history by both. ")
+                  "histories) are judged by the direct predicate only, the plugin of the history by both. "
+                  "Histories with foreign filter handlers or refused commands are judged by the direct predicate only. "
+                  "Not generated: a refused goto of an initiate while a trip is ONGOING (the pinned code then cannot "
+                  "finish or restart: findings/F17c_C17_refused_reinitiate_candidate.json), a refused goto of a redraw. "
+                  "A restart issued by an earlier handler of the same telemetry dispatch is exercised, but whether the "
+                  "same telemetry may then draw once more is not decided by the property text and not judged. ")
     modelled = ["gradysim/protocol/plugin/random_mobility.py", "gradysim/protocol/plugin/dispatcher.py",
                 "gradysim/protocol/position.py (squared_distance)"]
     quick_n = 1500
